@@ -49,6 +49,16 @@ func enter(fn string) (int, *Fault) {
 	for i := range op.Faults {
 		f := &op.Faults[i]
 		if (f.Call != 0 && f.Call == n) || (f.Call == 0 && f.Fn == fn) {
+			if f.Kind == "signal" {
+				// The process is told to terminate (Ctrl-C, a cancelled CI job)
+				// while it is between two seam calls. Whatever handler the
+				// program installed gets a moment to run; without one the
+				// default disposition kills the process at once.
+				logLine(map[string]any{"n": n, "fn": fn, "fault": f})
+				syscall.Kill(os.Getpid(), syscall.SIGTERM)
+				time.Sleep(1500 * time.Millisecond)
+				crashNow()
+			}
 			return n, f
 		}
 	}
